@@ -657,6 +657,12 @@ Proof.
   - cbn [fst]. split; [|reflexivity]. apply map_reps_en; [|exact Hs]. en_rep.
   - split; [exact Hs|reflexivity].
   - destruct (fair_en s Hs) as [A B]. destruct (fair s) as [s1 c]. cbn [fst] in *. split; assumption.
+  - unfold lag. destruct (find_rep s h) as [r|]; [|split; [exact Hs|reflexivity]].
+    destruct (reachable_member r && (rp_applied r <? sh_log s)); [|split; [exact Hs|reflexivity]].
+    destruct (is_full r || negb (others_quiesced s h)); [|split; [exact Hs|reflexivity]].
+    cbn [fst]. destruct (is_full r).
+    + split; [|reflexivity]. apply (map_reps_en (wake_component s h)); [|apply wake_component_en; exact Hs]. en_rep.
+    + split; [|reflexivity]. apply map_reps_en; [|exact Hs]. en_rep.
 Qed.
 
 Lemma shard_run_en ops : forall s, shard_en s -> shard_en (shard_state s ops) /\ sh_quiesce (shard_state s ops) = sh_quiesce s.
